@@ -1,7 +1,7 @@
 """Stubs of check C07 (DESIGN §3.1): the `re` engine as seen from FieldStorage.parse_header.
 
 CrossHair 0.0.110 models `re` itself, but its model never backtracks *into* the body of a repeat: for the
-pattern of FieldStorage (`(.+?)(=(.+?))?(;|$)`) it matches the optional group with the shortest `.+?` and, when the
+pattern FieldStorage had when this was measured (`(.+?)(=(.+?))?(;|$)`; the current one has the same shape) it matches the optional group with the shortest `.+?` and, when the
 rest fails, drops the whole group instead of lengthening the lazy part (measured: `name="\\x00"` came back as the
 single key `name="\\x00"` with value None, which CPython never produces).  `PyPattern` is a pure-Python
 backtracking interpreter of the parse tree that CPython's own `re._parser` builds from the *current* pattern text
